@@ -61,7 +61,41 @@ impl Future for YieldOnce {
     }
 }
 
-type Mailbox = Rc<RefCell<Option<(u8, bool)>>>;
+const NO_GUARD: u8 = 99;
+/// (value, sync, guard value or NO_GUARD)
+type Cmd = (u8, bool, u8);
+type Mailbox = Rc<RefCell<Option<Cmd>>>;
+
+/// A cleanup guard held across a trigger call: if it is dropped while the thread is unwinding (the call
+/// panicked) its destructor fires `trigger_noop(g)`, bumps the progress counter when that returns and records
+/// both; a panic of that nested trigger is caught inside the destructor and recorded.
+struct CleanupGuard {
+    s: usize,
+    g: u8,
+    prog: Rc<Cell<u64>>,
+    next_t: Rc<Cell<u64>>,
+}
+impl Drop for CleanupGuard {
+    fn drop(&mut self) {
+        if !std::thread::panicking() {
+            return;
+        }
+        let (s, g) = (self.s, self.g);
+        let t = self.next_t.get() + 1;
+        self.next_t.set(t);
+        rec::emit(json!({"ev":"trig","src":s,"v":g,"sync":true,"t":t,"g":NO_GUARD,"unwind":true}));
+        let r = std::panic::catch_unwind(std::panic::AssertUnwindSafe(|| {
+            if g == 0 { trigger_noop(Foreign(0)) } else { trigger_noop(Val { v: g, src: s, t }) }
+        }));
+        match r {
+            Ok(()) => {
+                self.prog.set(self.prog.get() + 1);
+                rec::emit(json!({"ev":"ret","src":s,"t":t,"prog":self.prog.get()}));
+            }
+            Err(_) => rec::emit(json!({"ev":"panicked","src":s,"t":t})),
+        }
+    }
+}
 
 /// The triggering code: between trigger calls it is parked on a yield; when the
 /// driver polls it with a command in the mailbox it performs that trigger call,
@@ -69,12 +103,13 @@ type Mailbox = Rc<RefCell<Option<(u8, bool)>>>;
 async fn source(s: usize, mb: Mailbox, prog: Rc<Cell<u64>>, next_t: Rc<Cell<u64>>, cur_t: Rc<Cell<u64>>, inside: Rc<Cell<bool>>) {
     loop {
         let cmd = mb.borrow_mut().take();
-        if let Some((v, sync)) = cmd {
+        if let Some((v, sync, g)) = cmd {
             let t = next_t.get() + 1;
             next_t.set(t);
             cur_t.set(t);
             inside.set(true);
-            rec::emit(json!({"ev":"trig","src":s,"v":v,"sync":sync,"t":t}));
+            rec::emit(json!({"ev":"trig","src":s,"v":v,"sync":sync,"t":t,"g":g,"unwind":false}));
+            let _guard = (g != NO_GUARD).then(|| CleanupGuard { s, g, prog: prog.clone(), next_t: next_t.clone() });
             match (v, sync) {
                 (0, true) => trigger_noop(Foreign(0)),
                 (0, false) => trigger(Foreign(0)).await,
@@ -184,7 +219,7 @@ impl World {
 
     /// Poll source s once; `cmd` = the trigger call it shall make (only when it
     /// is between calls), None = plain poll of a parked source.
-    fn poll_src(&mut self, s: usize, cmd: Option<(u8, bool)>) -> bool {
+    fn poll_src(&mut self, s: usize, cmd: Option<Cmd>) -> bool {
         let src = &mut self.srcs[s - 1];
         let Some(fut) = src.fut.as_mut() else { return false };
         match cmd {
@@ -210,7 +245,15 @@ impl World {
             Err(_) => {
                 src.fut = None;
                 src.inside.set(false);
-                rec::emit(json!({"ev":"panicked","src":s,"t":src.cur_t.get()}));
+                // the call panicked first, then the unwinding ran the cleanup guard (if any): put the
+                // `panicked` record of the call in front of the records the guard produced
+                let mut all = rec::take();
+                let at = all.iter().position(|e| e["unwind"] == true && e["src"] == s && e["t"].as_u64() > Some(src.cur_t.get()))
+                    .unwrap_or(all.len());
+                all.insert(at, json!({"ev":"panicked","src":s,"t":src.cur_t.get()}));
+                for e in all {
+                    rec::emit(e);
+                }
             }
         }
         true
@@ -244,9 +287,10 @@ fn execute(beh: &[Value], nsrc: usize) -> (Vec<Value>, Option<String>) {
             "drop_barrier" => w.drop_barrier(e["b"].as_u64().unwrap() as usize),
             "wait" => w.wait(e["b"].as_u64().unwrap() as usize),
             "drop_handle" => w.drop_handle(e["t"].as_u64().unwrap()),
+            "trig" if e["unwind"] == true => true, // produced by the cleanup guard of the code under test
             "trig" => w.poll_src(
                 e["src"].as_u64().unwrap() as usize,
-                Some((e["v"].as_u64().unwrap() as u8, e["sync"].as_bool().unwrap())),
+                Some((e["v"].as_u64().unwrap() as u8, e["sync"].as_bool().unwrap(), e["g"].as_u64().unwrap_or(NO_GUARD as u64) as u8)),
             ),
             "poll" => w.poll_src(e["src"].as_u64().unwrap() as usize, None),
             _ => true, // ret / panicked / poll_end are produced by the code
@@ -273,6 +317,7 @@ fn main_replay(args: &[String]) {
     let mut nontrivial = 0u64;
     let mut ndiv = 0u64;
     let mut divs: Vec<Value> = Vec::new();
+    let mut cands: Vec<(String, Value, Vec<Value>)> = Vec::new();
     let mut samples: Vec<Value> = Vec::new();
     for (ln, line) in text.lines().enumerate() {
         if line.trim().is_empty() {
@@ -292,17 +337,43 @@ fn main_replay(args: &[String]) {
         if pred != obsn {
             ndiv += 1;
             let k = pred.iter().zip(obsn.iter()).position(|(a, b)| a != b).unwrap_or(pred.len().min(obsn.len()));
-            if divs.len() < 50 {
-                let tp = format!("{traces}/div_{ln}.ndjson");
-                util::write_ndjson(&tp, &obs);
-                divs.push(json!({"line": ln, "what": format!("event #{k} differs"), "predicted": pred.get(k), "observed": obsn.get(k),
-                    "stopped": stopped, "behaviour": beh, "trace": tp}));
-            }
+            let ev = |e: Option<&Value>| e.map(|e| format!("{}{}", e["ev"].as_str().unwrap_or("?"), if e["unwind"] == true { "!" } else { "" })).unwrap_or("-".into());
+            let sig = format!("{}|{}", ev(pred.get(k)), ev(obsn.get(k)));
+            cands.push((sig, json!({"line": ln, "what": format!("event #{k} differs"), "predicted": pred.get(k), "observed": obsn.get(k),
+                "stopped": stopped, "behaviour": beh}), obs));
         } else if samples.len() < 2 && has_wait_hit && has_poll {
             samples.push(json!({"behaviour": beh, "observed_equal": true}));
         }
     }
-    let summary = json!({"behaviours": total, "nontrivial": nontrivial, "divergent": ndiv, "divergences": divs, "samples": samples});
+    // Every kind of divergence goes to the PropSpec: per signature (predicted event kind | observed event kind)
+    // up to 400 divergent behaviours, evenly spaced, at most 3000 in total; their observed traces are
+    // concatenated (each starts with a reset record) into one file for a single TLC run.
+    let mut by_sig: BTreeMap<String, Vec<usize>> = BTreeMap::new();
+    for (i, c) in cands.iter().enumerate() {
+        by_sig.entry(c.0.clone()).or_default().push(i);
+    }
+    let per = (3000 / by_sig.len().max(1)).clamp(1, 400);
+    let mut chosen: Vec<usize> = Vec::new();
+    for v in by_sig.values() {
+        let stride = v.len().div_ceil(per).max(1);
+        chosen.extend(v.iter().step_by(stride).copied());
+    }
+    chosen.sort();
+    let mut all_lines: Vec<Value> = Vec::new();
+    for i in chosen {
+        let (sig, meta, obs) = &cands[i];
+        let mut m = meta.clone();
+        m["start"] = json!(all_lines.len() + 1);
+        m["signature"] = json!(sig);
+        all_lines.extend(obs.iter().cloned());
+        m["end"] = json!(all_lines.len());
+        divs.push(m);
+    }
+    let div_all = format!("{traces}/div_all.ndjson");
+    util::write_ndjson(&div_all, &all_lines);
+    let sigs: BTreeMap<String, usize> = by_sig.iter().map(|(k, v)| (k.clone(), v.len())).collect();
+    let summary = json!({"behaviours": total, "nontrivial": nontrivial, "divergent": ndiv, "divergences": divs,
+        "div_all": div_all, "signatures": sigs, "samples": samples});
     std::fs::write(&out, serde_json::to_string(&summary).unwrap()).unwrap();
     println!("replayed={total} nontrivial={nontrivial} divergent={ndiv}");
 }
@@ -340,7 +411,7 @@ fn main_random(args: &[String]) {
                 let v = rng.random_range(1..=nvals);
                 let sync = rng.random_bool(0.3);
                 // a source that got stuck inside a call is polled instead (its poll_end records that it is stuck)
-                if w.poll_src(s, Some((v, sync))) {
+                if w.poll_src(s, Some((v, sync, NO_GUARD))) {
                     ntrig += 1;
                 } else {
                     w.poll_src(s, None);
@@ -383,7 +454,9 @@ fn main_random(args: &[String]) {
                     let s = rng.random_range(1..=nsrc);
                     let v = rng.random_range(0..=nvals);
                     let sync = rng.random_bool(0.25);
-                    if w.poll_src(s, Some((v, sync))) {
+                    // one call in five holds a cleanup guard that triggers while the call unwinds
+                    let g = if rng.random_bool(0.2) { rng.random_range(0..=nvals) } else { NO_GUARD };
+                    if w.poll_src(s, Some((v, sync, g))) {
                         ntrig += 1;
                     }
                 }
@@ -477,7 +550,7 @@ async fn sim_source(s: usize, script: Vec<(u64, u8, bool)>, prog: Rc<Cell<u64>>,
         }
         let t = next_t.get() + 1;
         next_t.set(t);
-        rec::emit(json!({"ev":"trig","src":s,"v":v,"sync":sync,"t":t}));
+        rec::emit(json!({"ev":"trig","src":s,"v":v,"sync":sync,"t":t,"g":NO_GUARD,"unwind":false}));
         if v >= 3 {
             let mut b = [0u8; 1];
             let n = files[&v].read_at(&mut b, t)?;
